@@ -132,6 +132,19 @@ fn extract_family(o: &mut Out, r: &mut Rng, th: bool) {
             }
         }
     }
+    // the decoded (non-Pod) grouped ciphertext by index, group sizes 0..3: single-handle extraction and both
+    // decryption entry points (the one returning the discrete-log instance and the 32-bit one)
+    for n in 0..=3usize {
+        let ks: Vec<_> = (0..n).map(|_| kp(r)).collect();
+        let rr = rand_scalar(r);
+        let mut g = commit(&Scalar::from(7u64), &rr).compress().to_bytes().to_vec();
+        for k in ks.iter() { g.extend((rr * k.p).compress().to_bytes()); }
+        for i in idx.iter() {
+            if *i > usize::MAX as u64 { continue; }
+            o.op("grouped-by-index.to", &format!("elg gto {} {} {}", n, hex(&g), i));
+            o.op("grouped-by-index.decrypt", &format!("elg gdec {} {} {} {}", n, hex(&g), hs(&rand_nonzero(r)), i));
+        }
+    }
 }
 
 fn b64(bytes: &[u8]) -> String {
@@ -144,7 +157,7 @@ fn text_family(o: &mut Out, r: &mut Rng, th: bool) {
         ("p-zero", 96), ("p-pubkey", 64), ("p-ctct", 224), ("p-ctcmt", 192), ("p-val2", 160), ("p-val3", 192), ("p-bval2", 160),
         ("p-bval3", 192), ("p-cap", 256), ("p-range64", 672), ("p-range128", 736), ("p-range256", 800)];
     for (codec, n) in pods {
-        if !th && codec.starts_with("p-") && (n / 32 + r.below(3) as usize) % 3 != 0 && codec != "p-pubkey" && codec != "p-range128" { continue; }
+        // (every proof type on every run: a text decoder wrong for one type only is otherwise seen one seed in three)
         for _ in 0..(if th { 10 } else { 2 }) {
             // bytes whose base64 text uses the two alphabet-specific symbols (62, 63) as well
             let mut v = r.bytes(n);
@@ -481,6 +494,27 @@ pub fn gen_c11(o: &mut Out, tier: &str, seed: u64) {
                 o.op("subamt.sc", &format!("elg subamt {} {} {}", hp(&c), hp(&d), hs(&b)));
             }
         }
+        // public amounts added to / subtracted from ciphertexts of special shape: identity commitment with a live handle
+        // (the difference of two ciphertexts that share amount and opening under two keys), identity handle with a live
+        // commitment, both the identity, commitment equal to the handle, commitment = amount*G exactly
+        {
+            let (k1, k2) = (kp(&mut r), kp(&mut r));
+            let rr = rand_nonzero(&mut r);
+            let id = RistrettoPoint::identity();
+            let a = amount(&mut r);
+            let shapes: Vec<(RistrettoPoint, RistrettoPoint)> = vec![(id, rr * k1.p - rr * k2.p), (id, rr * k1.p), (commit(&Scalar::from(a), &rr), id), (id, id),
+                (rr * k1.p, rr * k1.p), (Scalar::from(a) * G, rr * k1.p), (-(Scalar::from(a) * G), rr * k1.p)];
+            for (c, d) in shapes {
+                for b in [0u64, 1, a, u64::MAX] {
+                    o.op("addamt.special-shape", &format!("elg addamtu64 {} {} {}", hp(&c), hp(&d), b));
+                    o.op("subamt.special-shape", &format!("elg subamtu64 {} {} {}", hp(&c), hp(&d), b));
+                }
+                for b in [Scalar::ZERO, Scalar::from(a), -Scalar::from(a), rand_scalar(&mut r)] {
+                    o.op("addamt.special-shape", &format!("elg addamt {} {} {}", hp(&c), hp(&d), hs(&b)));
+                    o.op("subamt.special-shape", &format!("elg subamt {} {} {}", hp(&c), hp(&d), hs(&b)));
+                }
+            }
+        }
         // operators on openings, commitments, handles, ciphertexts (4 ownership variants each, both scalar orders)
         let k = kp(&mut r);
         let pts = |r: &mut Rng| -> Vec<RistrettoPoint> { vec![RistrettoPoint::identity(), G, *H, rand_scalar(r) * G, -(rand_scalar(r) * G)] };
@@ -683,6 +717,10 @@ pub fn gen_c13(o: &mut Out, tier: &str, seed: u64) {
             o.op("encrypt", &format!("ae encrypt {} {} {}", hex(k), a, hex(&r.bytes(8))));
         }
     }
+    // volume: 2^19 (quick) / 2^23 (thorough) fresh encryptions, each opened again
+    for _ in 0..(if th { 16 } else { 1 }) {
+        o.op_exp("encrypt.soak", "ok", &format!("ae soak {} 524288", hex(&r.bytes(16))));
+    }
     // text form on byte patterns that exercise both alphabet-specific base64 symbols
     for _ in 0..(if th { 40 } else { 6 }) {
         let mut v = r.bytes(36);
@@ -809,6 +847,12 @@ pub fn gen_c14(o: &mut Out, tier: &str, seed: u64) {
             o.op("seed.length", &format!("kdf {} seed {}", ty, hex(&r.bytes(len))));
         }
         for _ in 0..n { let l = 32 + r.below(64) as usize; o.op("seed", &format!("kdf {} seed {}", ty, hex(&r.bytes(l)))); }
+        // lengths beyond 2^32 (a length check made on a narrowed integer wraps back into the allowed window)
+        if usize::BITS >= 64 {
+            for l in [(1u64 << 32) + 16, (1 << 32) + 32, (1 << 32) + 65535, (1 << 32), (1 << 33) + 64, (1 << 31) + 32, (1 << 16) + 32, 1 << 16, 100, 32] {
+                o.op("seed.zeros-length", &format!("kdf {} seedzeros {}", ty, l));
+            }
+        }
         // recording signer: message = prefix || public seed ; all-zero signature refused
         for plen in [0usize, 1, 32, 33, 200, 65535, 65536, 65537, 70000, 131072] {
             let ps = r.bytes(plen);
@@ -958,7 +1002,9 @@ pub fn gen_c10(o: &mut Out, tier: &str, seed: u64) {
     // sequences of configuration calls on one instance: only the last accepted value of each setting counts,
     // and a refused call leaves the instance unchanged
     let seqs = ["t4+t1", "t16+t1", "t1+t4", "t64+t2", "t2+t64+t1", "b33+t4+b1000", "t4+b33+t1+b32", "t8+t3?", "t8+t3?+t1",
-                "b100+b65536?", "t4+b70000?+t1", "t1024+t1+t1024", "b1+t256+b65535", "t3?+b65536?"];
+                "b100+b65536?", "t4+b70000?+t1", "t1024+t1+t1024", "b1+t256+b65535", "t3?+b65536?",
+                // refused powers of two above the limit (a refusal of either kind leaves the instance as it was)
+                "t131072?", "t4+t131072?", "t1048576?+t2", "t4+t9223372036854775808?", "b33+t262144?+b1000"];
     for (i, x) in xs.iter().enumerate() {
         if !th && i % 4 != (seed % 4) as usize { continue; }
         let t = hp(&(Scalar::from(*x) * G));
